@@ -143,6 +143,12 @@ func randomCfg(g *rand.Rand, seed int64, family string) SchedCfg {
 		b.Lease = false
 		s.Voters = []uint64{1}
 		s.Learners = nil
+	case "twoccbatch":
+		s.Voters = []uint64{1, 2, 3}
+		s.Learners = nil
+		b.StepDown = false
+		b.CheckQuorum = false
+		b.Lease = false
 	case "xferjoint":
 		b.Async = false
 	case "aba":
@@ -426,7 +432,7 @@ func (x *gen) next(phase string) string {
 	return "tickall"
 }
 
-var phases = []string{"healthy", "chaos", "partition", "crashy", "confchange", "snapshots", "transfer", "reads", "limits", "stall", "dsnap", "fig8snap", "dupvote", "snaplead", "rereads", "snapapply", "aba", "xferjoint", "soloread", "readhb", "selfack", "oddcalls", "snapinactive", "snapterm", "xferremoved", "cqreports", "jointcampaign"}
+var phases = []string{"healthy", "chaos", "partition", "crashy", "confchange", "snapshots", "transfer", "reads", "limits", "stall", "dsnap", "fig8snap", "dupvote", "snaplead", "rereads", "snapapply", "aba", "xferjoint", "soloread", "readhb", "selfack", "oddcalls", "snapinactive", "snapterm", "xferremoved", "cqreports", "jointcampaign", "twoccbatch"}
 
 func (x *gen) isLeader(n *Node) bool {
 	if !n.alive || n.rn == nil {
@@ -757,6 +763,8 @@ func runRandom(s SchedCfg, nops int, tr *traceWriter) *Cluster {
 			x.directedCQReports()
 		case "jointcampaign":
 			x.directedJointCampaign()
+		case "twoccbatch":
+			x.directedTwoCCBatch()
 		default:
 			for i, l := 0, 15+x.g.Intn(50); i < l && c.ops < nops; i++ {
 				c.exec(x.next(phase))
